@@ -1,6 +1,7 @@
 package rules
 
 import (
+	"go/token"
 	"os"
 	"fmt"
 	"go/types"
@@ -542,6 +543,7 @@ func C10(p *an.Prog, r *an.Report) {
 	r.Floor("signing_pubkey_size_lookups", len(byClass["spk"]), 4)
 	r.Floor("crypto_pubkey_size_lookups", len(byClass["cpk"]), 3)
 	c10TypeValidators(p, r)
+	c10PrivateColumns(p, r, "C10.T4")
 	c10Constructed(p, r)
 	c10Block(p, r)
 }
@@ -550,6 +552,19 @@ func C10(p *an.Prog, r *an.Report) {
 // spec keys plus the experimental range.
 func c10TypeValidators(p *an.Prog, r *an.Report) {
 	n := 0
+	lengthValidators := 0
+	callSites := map[*ssa.Function][]*ssa.Call{}
+	for _, fn := range p.RepoFns {
+		for _, b := range fn.Blocks {
+			for _, in := range b.Instrs {
+				if c, ok := in.(*ssa.Call); ok {
+					if g := c.Call.StaticCallee(); g != nil {
+						callSites[g] = append(callSites[g], c)
+					}
+				}
+			}
+		}
+	}
 	for _, fn := range p.RepoFns {
 		if fn.Synthetic != "" || fn.Parent() != nil || len(fn.Blocks) == 0 || len(fn.Params) != 1 || !isIntegerType(fn.Params[0].Type()) {
 			continue
@@ -559,6 +574,20 @@ func c10TypeValidators(p *an.Prog, r *an.Report) {
 			continue
 		}
 		prm := fn.Params[0]
+		// a validator that is only ever handed a length (len(x) or arithmetic on it) checks sizes,
+		// not type codes, however small its accept set is
+		if sites := callSites[fn]; len(sites) > 0 {
+			allLen := true
+			for _, c := range sites {
+				if len(c.Call.Args) != 1 || !lengthDerived(c.Call.Args[0], 0) {
+					allLen = false
+				}
+			}
+			if allLen {
+				lengthValidators++
+				continue
+			}
+		}
 		dom, _ := typeRangeOf(prm.Type())
 		ev := &an.PEval{P: p, Domain: dom, MaxPaths: 2000, Select: func(ev *an.PEval, v ssa.Value, args []an.AV) bool { return v == ssa.Value(prm) }}
 		outs, err := ev.Run(fn, rootArgs(fn))
@@ -596,6 +625,106 @@ func c10TypeValidators(p *an.Prog, r *an.Report) {
 		}
 	}
 	r.Analysed["type_code_validators"] = n
+	r.Analysed["length_validators_set_aside"] = lengthValidators
+}
+
+// c10PrivateColumns (T4): the wire structures carry public keys only, so outside the table's own
+// package no function that handles wire data sizes anything by a private-key column of a size
+// table (a column whose name says Private). Functions whose receiver or parameters are themselves
+// private-key types are the only admitted readers.
+func c10PrivateColumns(p *an.Prog, r *an.Report, rule string) {
+	var bad []string
+	reads, home := 0, 0
+	for _, fn := range p.RepoFns {
+		if !an.InLib(fn) || len(fn.Blocks) == 0 {
+			continue
+		}
+		for _, b := range fn.Blocks {
+			for _, in := range b.Instrs {
+				var st types.Type
+				idx := -1
+				switch x := in.(type) {
+				case *ssa.Field:
+					st, idx = x.X.Type(), x.Field
+				case *ssa.FieldAddr:
+					// reads only: the address is loaded, not stored to
+					isRead := false
+					for _, ref := range *x.Referrers() {
+						if u, ok := ref.(*ssa.UnOp); ok && u.Op == token.MUL {
+							isRead = true
+						}
+					}
+					if isRead {
+						st, idx = an.Deref(x.X.Type()), x.Field
+					}
+				}
+				if idx < 0 {
+					continue
+				}
+				s, ok := st.Underlying().(*types.Struct)
+				if !ok || idx >= s.NumFields() {
+					continue
+				}
+				f := s.Field(idx)
+				if !strings.Contains(f.Name(), "Private") || !strings.Contains(f.Name(), "Size") || !isIntegerType(f.Type()) {
+					continue
+				}
+				reads++
+				pkgOfType, _ := an.NamedOf(st)
+				if f.Pkg() != nil && an.FnPkgPath(fn) == f.Pkg().Path() {
+					home++
+					continue
+				}
+				_ = pkgOfType
+				private := false
+				sig := fn.Signature
+				check := func(t types.Type) {
+					if _, name := an.NamedOf(an.Deref(t)); strings.Contains(name, "Private") {
+						private = true
+					}
+				}
+				if sig.Recv() != nil {
+					check(sig.Recv().Type())
+				}
+				for i := 0; i < sig.Params().Len(); i++ {
+					check(sig.Params().At(i).Type())
+				}
+				if strings.Contains(fn.Name(), "Private") {
+					private = true
+				}
+				if !private {
+					bad = append(bad, fmt.Sprintf("%s reads the private-key column %s at %s", an.FnKey(fn), f.Name(), p.Pos(in.Pos())))
+				}
+			}
+		}
+	}
+	r.Analysed["private_size_column_reads"] = reads
+	if home == 0 {
+		r.Fail(rule+" canary: no read of a private-key size column was found inside the table's own package (the detector no longer sees GetKeySizes-style accessors)")
+	}
+	r.Check(len(bad) == 0, rule, "private-size-columns", "-", "no function handling wire (public-key) data takes a size from a private-key column of a size table", bad...)
+}
+
+// lengthDerived: v is len(x), or sums/differences of such values and constants.
+func lengthDerived(v ssa.Value, depth int) bool {
+	if depth > 4 {
+		return false
+	}
+	switch x := v.(type) {
+	case *ssa.Call:
+		bi, ok := x.Call.Value.(*ssa.Builtin)
+		return ok && (bi.Name() == "len" || bi.Name() == "cap")
+	case *ssa.BinOp:
+		if x.Op != token.ADD && x.Op != token.SUB {
+			return false
+		}
+		_, cx := x.X.(*ssa.Const)
+		_, cy := x.Y.(*ssa.Const)
+		return (cx || lengthDerived(x.X, depth+1)) && (cy || lengthDerived(x.Y, depth+1)) && !(cx && cy)
+	case *ssa.Convert:
+		return lengthDerived(x.X, depth+1)
+	}
+	return false
 }
 
 func c10Constructed(p *an.Prog, r *an.Report) {}
